@@ -6,9 +6,11 @@ D=/verif/seeded/$NAME
 PID=$(python3 -c "import json;print(json.load(open('$D/meta.json'))['property'])")
 cd /verif
 git -C /repo diff --quiet || { echo "/repo is dirty"; exit 2; }
+cp /verif/evidence/$PID.json /tmp/evidence_$PID.bak 2>/dev/null
 git -C /repo apply $D/patch.diff || exit 2
 timeout 1500 ./vcheck $PID --tier $TIER > /tmp/seedrun_$NAME.log 2>&1; RC=$?
 git -C /repo checkout -- . ; git -C /repo clean -fdq -- exponax
+cp /tmp/evidence_$PID.bak /verif/evidence/$PID.json 2>/dev/null
 LINE=$(grep -m1 "^VIOLATION" /tmp/seedrun_$NAME.log)
 python3 - <<PY
 import json
